@@ -82,6 +82,27 @@ def scenarios(tier="quick"):
         call(pycomm3.CIPDriver.list_identity, "10.0.0.1")
         call(pycomm3.CIPDriver.discover)
         yield (f"lifecycle/{polname}", w, t)
+    # 2b. drivers derived by an application (short, long and non-ASCII class names; a subclass that sets its own attributes): same frames
+    class PLC(pycomm3.CIPDriver):
+        pass
+
+    class ApplicationSpecificLineControllerDriver(pycomm3.CIPDriver):
+        def __init__(self, path, *a, **k):
+            super().__init__(path, *a, **k)
+            self.line = 7
+
+    Umlaut = type("Stra\u00dfenSPS", (pycomm3.CIPDriver,), {})
+    for cls_ in (PLC, ApplicationSpecificLineControllerDriver, Umlaut):
+        t = enip.Target(enip.IdentityDevice(), enip.Policy(), keep_cip=False)
+        w = net.World(t, io_budget=10**7, send_regime=SEND_REGIME)
+        w.__enter__()
+        d = cls_("10.0.0.1/bp/2")
+        call(d.open)
+        call(d.generic_message, service=1, class_code=1, instance=1)
+        call(d.generic_message, service=1, class_code=1, instance=1, connected=False, unconnected_send=True)
+        call(d.close)
+        call(cls_.list_identity, "10.0.0.1")
+        yield (f"subclass/{len(cls_.__name__)}-char-name", w, t)
     # 3. SLC reads and writes
     from . import c18
 
